@@ -156,9 +156,28 @@ Definition enc_de_result (r : de_result) : list N :=
 
 (** top-level form of the document: 1 = a map; anything else (another value, a truncated
     text, or - 2 - the positional sequence of the field values) is not a map *)
+(** other element types are run through the same model after re-tagging the data items:
+    what the element codec accepts becomes the integer the harness reports for it, what
+    it rejects becomes a value no u32 codec accepts.
+    kind 1: the zero-sized unit type - JSON null only (reported as 0);
+    kind 2: Option<u8> - null (0) or an integer below 256 (1 + value) *)
+Definition retag_elem (ek : N) (v : jval) : jval :=
+  if (ek =? 1)%N then match v with JNull => JUInt 0 | _ => JStr end
+  else if (ek =? 2)%N then match v with
+                           | JNull => JUInt 0
+                           | JUInt n => if (n <? 256)%N then JUInt (1 + n) else JStr
+                           | _ => JStr
+                           end
+  else v.
+Definition retag_doc (ek : N) (d : jdoc) : jdoc :=
+  map (fun kv => match kv with
+                 | (KData, JArr l) => (KData, JArr (map (retag_elem ek) l))
+                 | _ => kv
+                 end) d.
+
 Definition p_doc_case : parser (transport * bool * jdoc) :=
   _d <~ p_bool ;; tr <~ p_transport ;; top <~ p_N ;; d <~ p_list p_field ;;
-  p_ret (tr, (top =? 1)%N, d).
+  p_ret (tr, (top mod 10 =? 1)%N, retag_doc (top / 10) d).
 
 Definition serde_model (inp : list N) : list N :=
   match run_parser p_doc_case inp with
